@@ -90,33 +90,19 @@ def _appends(s, lst_term):  # type: ignore
 
 
 def r17_3(ck: Check) -> None:
+    from ..engine.match import same_function
     for fn, pair_expr, what in (
-            ("get_merkle_root", "sha256d(chunk[0] + chunk[1])", "hash of left ++ right"),
-            ("_get_merkle_tree", "MerkleNode(chunk[0].index, (chunk[0], chunk[1]))", "node with children (left, right)")):
+            ("get_merkle_root", "sha256d(c[0] + c[1])", "hash of left ++ right"),
+            ("_get_merkle_tree", "MerkleNode(c[0].index, (c[0], c[1]))", "node with children (left, right)")):
         s = ck.summ(MT + fn, 0)
-        sp = Spec(s, ("lst",), forall=[("chunk", "_chunks(lst, 2)")])
-        rets = s.returns()
-        base = [r for r in rets if r.term == sp.term("lst[0]")]
-        rec = [r for r in rets if r.term[0] == "call" and r.term[1] == ("g", MT + fn)]
-        construct = "%s: len==1 -> element 0; else recurse on the next level" % fn
-        one = Spec(s, ("lst",)).term("len(lst) == 1")
-        if len(rets) == 2 and len(base) == 1 and len(rec) == 1 and [c.term for c in residual(base[0], ())] == [one] and rec[0].term[2][0][0] == "new":
+        sp = Spec(s, ("lst",))
+        want = sp.term("lst[0] if len(lst) == 1 else %s([(%s if len(c) == 2 else c[0]) for c in _chunks(lst, 2)])" % (fn, pair_expr))
+        construct = "%s: one element -> itself; else recurse on [%s for each pair, the odd element promoted unchanged], in order" % (fn, what)
+        if same_function(s, want):
             ck.ok("R17.3", construct, "", s.fi.loc)
         else:
-            ck.violated("R17.3", construct, "recursion skeleton changed: %s" % "; ".join(show(r.term) for r in rets), s.fi.loc)
-            continue
-        lst = rec[0].term[2][0]
-        apps = _appends(s, lst)
-        two = sp.term("len(chunk) == 2")
-        pair = [e for e in apps if e.term[2] == (sp.term(pair_expr),) and list(loop_doms(e)) == sp.loops
-                and [c.term for c in residual(e, ()) if c.prov != "ret-surv"] == [two]]
-        lone = [e for e in apps if e.term[2] == (sp.term("chunk[0]"),) and list(loop_doms(e)) == sp.loops
-                and [c.term for c in residual(e, ()) if c.prov != "ret-surv"] == [sp.term("len(chunk) != 2")]]
-        construct = "%s: pair -> %s; odd element promoted unchanged; over _chunks(lst, 2) in order" % (fn, what)
-        if len(apps) == 2 and len(pair) == 1 and len(lone) == 1 and not any(l[2] for l in pair[0].loops):
-            ck.ok("R17.3", construct, "", pair[0].loc)
-        else:
-            ck.violated("R17.3", construct, "level construction differs from its sibling builder: %s" % "; ".join(e.describe() for e in apps), s.fi.loc)
+            ck.violated("R17.3", construct, "level construction / recursion differs: returns %s" % "; ".join(
+                (show(r.cond)[:60] + " -> " + show(r.term)[:220]) for r in s.returns()), s.fi.loc)
     s = ck.summ(MT + "_chunks", 0)
     require_return(ck, "R17.3", s, Spec(s, ("lst", "n")), "(lst[i:i + n] for i in range(0, len(lst), n))", "consecutive chunks in order")
     s = ck.summ(MT + "MerkleNode.hash", 0)
